@@ -531,17 +531,22 @@ func c35Concurrent(c *verifmc.Check) {
 				}
 			}
 			var rets []c35Ret // return order (one thread runs at a time)
+			var rmu sync.Mutex
 			hashes := map[uint64]crypto.Hash{}
 			for ti := range sc.threads {
 				ti := ti
 				sched.Go(fmt.Sprint("t", ti), func() {
 					for _, p := range prep[ti] {
 						topo := s.m.Node.TopoWrite(p.snap, p.signers)
-						rets = append(rets, c35Ret{ti, topo.TopologicalOrder}) // no scheduling point since the return
+						// no scheduling point since the return; the mutex only matters in
+						// the free-running race pass (it spans no scheduling point)
+						rmu.Lock()
+						rets = append(rets, c35Ret{ti, topo.TopologicalOrder})
 						hashes[topo.TopologicalOrder] = p.snap.PayloadHash()
-						if n := len(rets); n > 1 && rets[n-2].Pos >= topo.TopologicalOrder {
+						if n := len(rets); n > 1 && rets[n-2].Pos >= topo.TopologicalOrder && !verifmc.FreeRunning() {
 							report("concurrent-return-order", fmt.Sprintf("scenario %s: TopoWrite returned position %d after position %d had been returned", sc.name, topo.TopologicalOrder, rets[n-2].Pos))
 						}
+						rmu.Unlock()
 						got, err := s.m.Store.ReadSnapshotsSinceTopology(0, 500)
 						if err != nil {
 							report("concurrent-listing-error", err.Error())
